@@ -1,4 +1,4 @@
-from ast import Attribute, Subscript, Load, NodeVisitor, Name as AstName, Lambda, And, iter_child_nodes
+from ast import Attribute, Subscript, Load, NodeVisitor, Name as AstName, Lambda, And, Compare, iter_child_nodes
 
 from .compat import PY2
 from .scope import FuncScope, Flow, SourceScope, ClassScope, get_first_body_node_loc
@@ -70,9 +70,9 @@ def test_outcomes(test, flow):
     """Regions a condition ends in when it is true and when it is false"""
     all_flow = getattr(test, 'all_flow', None)
     if all_flow is not None:
-        # a chain of operands: 'and' is true, 'or' is false only when every
-        # operand was evaluated
-        if isinstance(test.op, And):  # type: ignore[attr-defined]
+        # a chain of operands: 'and' and a comparison chain are true, 'or'
+        # is false only when every operand was evaluated
+        if isinstance(test, Compare) or isinstance(test.op, And):  # type: ignore[attr-defined]
             return all_flow, flow
         return flow, all_flow
     return flow, flow
@@ -509,6 +509,7 @@ class extract_visitor(NodeVisitor):
             ends.append(self.visit_in_flow(v, self.make_flow('compare', [ends[-1]])))
         self.flow = self.make_flow('join', ends)
         self.flow.scope.flow = self.flow
+        node.all_flow = ends[-1]  # type: ignore[attr-defined]
 
     def visit_NamedExpr(self, node):
         # type: (ast.NamedExpr) -> None
